@@ -149,6 +149,7 @@ SameRun(a, b) == /\ a.verdict = b.verdict
                  /\ a.verdict # "diverge" => (a.reds = b.reds /\ a.val = b.val /\ a.nfetch = b.nfetch)
 ERef   == eref    \* membership / first-bad reference of the current input, computed once per group (at the first reset)
 
+SRef == Run(Gc, STab[cs], input)      \* the specification's own resolved table on the current input
 C01_Run == (Ended /\ verdict = "accept") =>
              /\ dok
              /\ stk = <<StartSym(Gc)>>
@@ -167,9 +168,11 @@ C06_Run == Ended =>
         /\ verdict = "syntaxerr"
         /\ nfetch = e.pos
         /\ fetched = SubSeq(input \o <<End>>, 1, e.pos)
+  \*  (d) on a grammar whose conflicts are all decided by the rules of C04 the resolved table is the reference: what it
+  \*      rejects (in particular through a %nonassoc error entry) is reported as a syntax error, never answered with a result
+  /\ (~STab[cs].conflictfree /\ STab[cs].decided /\ SRef.status = "error") => verdict = "syntaxerr"
 \* C04 (behaviour): grammar with conflicts that are all decided by the C04 rules:
 \* the generated parser does what the specification's resolved table does
-SRef == Run(Gc, STab[cs], input)
 C04_Run == (Ended /\ STab[cs].decided /\ ~STab[cs].conflictfree /\ SRef.status # "diverge") =>
               /\ (verdict = "accept") <=> (SRef.status = "accept")
               /\ (verdict = "syntaxerr") <=> (SRef.status = "error")
